@@ -21,6 +21,7 @@ from concurrent.futures import ThreadPoolExecutor
 
 VERIF = os.path.dirname(os.path.dirname(os.path.abspath(__file__)))
 REPO = "/repo"
+NEGATIVE = set()  # seeded changes that do NOT break their property as stated (meta.json "negative_control"): the checks must stay silent
 
 
 def run_one(name, patch, props, args):
@@ -74,6 +75,8 @@ def main():
             if os.path.exists(meta) and os.path.exists(patch):
                 m = json.load(open(meta))
                 props = m.get("checks") or [m["property"]]
+                if m.get("negative_control"):
+                    NEGATIVE.add("seeded/" + d)
                 jobs.append(("seeded/" + d, patch, props))
     jobs = [j for j in jobs if args.only in j[0]]
     if args.check:
@@ -81,7 +84,7 @@ def main():
     bad = 0
     with ThreadPoolExecutor(max_workers=args.jobs) as pool:
         for res in pool.map(lambda j: run_one(j[0], j[1], j[2], args), jobs):
-            negative = os.path.basename(res["name"]).startswith("ok_")
+            negative = os.path.basename(res["name"]).startswith("ok_") or res["name"] in NEGATIVE
             print(f"== {res['name']}  tests: {res['tests']}")
             if res["tests"] and res["tests"].startswith("PATCH-FAILED"):
                 bad += 1
